@@ -252,6 +252,7 @@ def main(argv=None):
             samples.append(dict(obligation=cid, kind=obs[0]['kind'], paths=len(obs), verdicts=sorted(set(o['verdict'] for o in obs)),
                                 backend=obs[0]['backend'], seconds=round(sum(o['seconds'] for o in obs), 3),
                                 model=obs[0].get('model')))
+    slowest = sorted(((round(sum(o['seconds'] for o in obs), 2), cid, sorted(set(o['backend'] for o in obs))) for cid, obs in clauses.items()), reverse=True)[:8]
     functions = sorted(set(t for r in results for t in r['targets']))
     ev = dict(property_id=prop, tier=tier, seed=seed, level='proof',
               coverage=dict(obligations=n_ob, discharged=n_proved,
@@ -264,6 +265,7 @@ def main(argv=None):
                                             seconds=round(r['seconds'], 2)) for r in results],
                             clauses=per_clause, canaries=n_canary, canaries_refuted=n_canary - len(canary_fail),
                             backends=sorted(set(o['backend'] for obs in clauses.values() for o in obs)),
+                            slowest_obligations=[dict(obligation=c, seconds=t, backends=b) for t, c, b in slowest],
                             solver_seconds=round(sum(o['seconds'] for obs in clauses.values() for o in obs), 2),
                             known_findings=[dict(obligation=c, what=k.get('what')) for c, k, _ in known_hits],
                             undecided=undecided, undecided_conjuncts=list(reg.undecided),
